@@ -168,20 +168,16 @@ namespace pika::execution::experimental {
             {
                 if (next_state)
                 {
-                    // We are also not accessing this shared state directly anymore, so we reset
-                    // the next_state before calling done to avoid continuations being triggered by
-                    // this reference being the last reference (if done after swapping the head of
-                    // the queue that happens in done). When resetting before the swap of the head
-                    // of the queue, we also know this can't be the last reference since senders
-                    // that reference the shared state can't be used without adding a continuation
-                    // to the queue (a continuation will hold another reference to the shared
-                    // state). Continuations can run inline, but that can only happen after the head
-                    // of the queue has been swapped. In summary, there must be at least two
-                    // references to the shared state at this point, so we can safely reset it early.
-                    async_rw_mutex_shared_state_base* p = next_state.get();
-
-                    PIKA_ASSERT(next_state.use_count() > 1);
-                    next_state.reset();
+                    // Keep the next shared state alive while done() runs on it. The reference
+                    // held by next_state may be the last one: an operation state that was
+                    // connected but destroyed without being started (or a sender that was
+                    // assigned over) drops its reference without ever adding a continuation to
+                    // the queue. Releasing next_state before calling done() would then destroy
+                    // the next shared state and done() would run on freed memory. The local
+                    // reference is released when this destructor returns; if it is the last
+                    // one the next shared state is destroyed then and hands over to its own
+                    // successor.
+                    shared_state_ptr_type p = std::move(next_state);
 
                     p->done();
                 }
